@@ -15,7 +15,7 @@ CHECKS = {
          "2 streams; alphabet sizes/increments; MAX_FRAME_SIZE only raised; no state deduplication (every history replayed).",
          "explicit-state search over event histories on the implementation (gosim) + schedule enumeration", "gosim", "DESIGN.md §7 C09"),
  "C10": ("model_checking",
-         "The real h2.Config.Proxy runs between two frame-level endpoints (which close their side on EOF/error like real peers) over simnet under the gosim scheduler: 7 terminating events (client closes, server closes, write failure toward either side, malformed frame from either side, proxy shutdown) x 4 session states (idle, mid-stream, DATA blocked on a zero window with trailers queued, output channel full because the server stopped reading) + bad preface + dial error; every schedule with <=1 (quick) / <=2 (thorough) deviations; oracle at the first quiescent point with zero virtual time elapsed: Proxy returned, its upstream connection is closed, no thread spawned by the session is alive.",
+         "The real h2.Config.Proxy runs between two frame-level endpoints (which close their side on EOF/error like real peers) over simnet under the gosim scheduler: 7 terminating events (client closes, server closes, write failure toward either side, malformed frame from either side, proxy shutdown) x 5 session states (idle, mid-stream, DATA blocked on a zero window with trailers queued, output channel full because the server stopped reading, and its mirror image with a stalled client) + bad preface + dial error; every schedule with <=1 (quick) / <=2 (thorough) deviations; oracle at the first quiescent point with zero virtual time elapsed: Proxy returned, its upstream connection is closed, no thread spawned by the session is alive.",
          "TLS replaced by the dial seam (no close_notify); a peer that stopped reading never closes.",
          "stateless schedule/fault enumeration of the implementation (gosim)", "gosim", "DESIGN.md §7 C10"),
  "C11": ("model_checking",
@@ -35,7 +35,7 @@ CHECKS = {
          "Union of sub-products rather than the full product; Proxy-Connection treated as don't-care; requests net/http itself refuses are counted, not judged.",
          "bounded-exhaustive input enumeration against a reference model", "enum", "DESIGN.md §7 C14"),
  "C15": ("model_checking",
-         "Messages parsed from generated wire bytes (request/response x body sizes 0..65537 (1 MiB thorough) x Content-Length/chunked(chunk lists, 0-2 trailers)/close-delimited x 7 content codings incl. corrupt x 10 content types incl. form/multipart/binary; header-shape space) are run through 13 logger variants (HAR x 4 capture options, marbl stream/modifier, text logger x headersOnly x decode, bare snapshots) and serialised 7 ways; output must be byte-identical to an unlogged twin and the logger must not fail; snapshots must re-parse to the original; skip-logging must record nothing.",
+         "Messages parsed from generated wire bytes (request/response x body sizes 0..65537 (1 MiB thorough) x Content-Length/chunked(chunk lists, 0-2 trailers)/close-delimited x 7 content codings incl. corrupt x 10 content types incl. form/multipart/binary; header-shape space) are run through 13 logger variants (HAR x 4 capture options, marbl stream/modifier, text logger x headersOnly x decode, bare snapshots) and serialised 7 ways; output must be byte-identical to an unlogged twin and the logger must not fail; snapshots must re-parse to the original; skip-logging must record nothing, whatever other context operations precede or follow the mark.",
          "Chunk boundaries are not compared; only announced trailers.",
          "bounded-exhaustive input/configuration enumeration with a differential (unlogged twin) oracle", "enum", "DESIGN.md §7 C15"),
  "C16": ("model_checking",
@@ -43,7 +43,7 @@ CHECKS = {
          "bodySize/headersSize not compared; corrupt gzip: metadata only.",
          "bounded-exhaustive input/configuration enumeration against an independent reference computation", "enum", "DESIGN.md §7 C16"),
  "C17": ("model_checking",
-         "All operation sequences up to length 6 (quick) / 7 (thorough) over a 9-operation alphabet are run on the real har.Logger and compared step by step with a list model; 2-3 thread scenarios on colliding ids are run under the gosim scheduler with every interleaving of the logger's lock operations enumerated and each recorded history checked for linearizability against the same model.",
+         "All operation sequences up to length 6 (quick) / 7 (thorough) over a 9-operation alphabet are run on the real har.Logger and compared step by step with a list model; 2-3 thread scenarios on colliding ids are run under the gosim scheduler with every interleaving of the logger's lock operations enumerated and each recorded history checked for linearizability against the same model; an auxiliary free-running -race pass covers unsynchronised accesses.",
          "Scheduling points are synchronisation operations only (lock/atomic/channel); ids {a,b,c}; bodiless request/response shapes.",
          "exhaustive operation-sequence enumeration + stateless schedule enumeration (gosim) with linearizability oracle", "gosim", "DESIGN.md §7 C17"),
  "C01": ("model_checking",
@@ -51,7 +51,7 @@ CHECKS = {
          "The transport's internal goroutine schedules run free (not explored); sizes up to 4 MiB; in-memory conn validated against loopback TCP on a subset.",
          "bounded-exhaustive history/input enumeration against a reference model (worker subprocesses for crash attribution)", "enum", "DESIGN.md §7 C01"),
  "C03": ("fault_enumeration",
-         "Every truncation offset of several origin response scripts (fresh and reused upstream connection, GET/POST), every dial outcome, every prefix of 20 non-HTTP origin answers and of 35 client byte streams plus one-byte corruptions of valid requests, each followed by a marker request on the same client connection; oracle from the statement (well-formed 502 + Warning seen by the response modifier, or detectably incomplete response then close; no bytes of response 2 inside response 1; connection usable after 502; proxy process alive).",
+         "Every truncation offset of several origin response scripts (fresh and reused upstream connection, GET/POST), every dial outcome, every prefix of 20 non-HTTP origin answers and of 35 client byte streams plus one-byte corruptions of valid requests, and (against a MITM-enabled proxy) 23 CONNECT shapes x 9 continuations incl. ClientHello with/without SNI truncated at every offset, each followed by a marker request; oracle from the statement (well-formed 502 + Warning seen by the response modifier, or detectably incomplete response then close; no bytes of response 2 inside response 1; connection usable after 502; proxy process alive).",
          "Origins that stall without closing are not modelled; transport schedules run free.",
          "exhaustive fault-point enumeration (truncation offsets, prefixes, corruptions) against a reference model", "enum", "DESIGN.md §7 C03"),
  "C05": ("model_checking",
@@ -59,7 +59,7 @@ CHECKS = {
          "Sequential histories (no schedule exploration); Go's TLS stack only.",
          "bounded-exhaustive history enumeration against a reference model", "enum", "DESIGN.md §7 C05"),
  "C06": ("model_checking",
-         "Part 1: exhaustive host spellings (label pool x 1..3/4 labels, IPv4/IPv6 literals, ports, brackets) x SNI {absent, equal, different} x entry point, each chain verified with x509 against the CA, exact SAN, organisation, key possession, subset with a real TLS handshake. Part 2: all issue/request histories over clock shifts around the validity window on the virtual clock. Part 3: 2-3 concurrent requesters on empty/primed/expired caches, all interleavings of the cache lock operations under gosim.",
+         "Part 1: exhaustive host spellings (label pool x 1..3/4 labels, IPv4/IPv6 literals, ports, brackets) x SNI {absent, equal, different} x entry point, each chain verified with x509 against the CA, exact SAN, organisation, key possession, subset with a real TLS handshake. Part 2: all issue/request histories over clock shifts around the validity window on the virtual clock. Part 3: 2-3 concurrent requesters on empty/primed/expired caches, all interleavings of the cache lock operations under gosim; an auxiliary free-running -race pass covers unsynchronised accesses.",
          "x509 verification uses the real clock (time is shifted at issuance); unsynchronised accesses are not interleaved.",
          "bounded-exhaustive input/history enumeration + stateless schedule enumeration (gosim, unbounded)", "gosim", "DESIGN.md §7 C06"),
  "C02": ("model_checking",
@@ -71,11 +71,11 @@ CHECKS = {
          "Round trips go through a synchronous harness RoundTripper; simnet is the TCP model; deviation-bounded, not all interleavings.",
          "stateless schedule enumeration of the implementation (gosim) with deviation bounding", "gosim", "DESIGN.md §7 C07"),
  "C04": ("model_checking",
-         "The real CONNECT path of proxy.go runs over simnet under the gosim scheduler: all early-data placements x chunk lists in both directions at once x who finishes first x full/half close x direct or downstream-proxy route x request/response conversations; every schedule with <=2 (quick) / <=3 (thorough) deviations; oracle at the first quiescent point with zero virtual time elapsed: exact byte streams, prompt EOF on the other end, both connections released.",
+         "The real CONNECT path of proxy.go runs over simnet under the gosim scheduler: all early-data placements x chunk lists in both directions at once x who finishes first x full/half close x direct or downstream-proxy route x request/response conversations; the simnet TCP model is re-validated against loopback TCP on every run; every schedule with <=2 (quick) / <=3 (thorough) deviations; oracle at the first quiescent point with zero virtual time elapsed: exact byte streams, prompt EOF on the other end, both connections released.",
          "simnet models TCP semantics (coalescing reads, FIN, write-after-close); pauses are interleavings; sizes up to 32769 bytes (1 MiB thorough).",
          "stateless schedule enumeration of the implementation (gosim) with deviation bounding and virtual time", "gosim", "DESIGN.md §7 C04"),
  "C18": ("model_checking",
-         "The real proxy serves a trafficshape.Listener over simnet under the gosim scheduler with virtual time (bucket spin loops are parked by the engine until a drain tick): close actions at offsets {0,1,n-1,n,n+1,5000,6000}+range start x sizes {0,1,600,4095,4096,4097,10000} x range starts {0,1,4096} x body read chunkings; halts and throttles (single, adjacent, gap, max bandwidth), latency, non-matching URL; counts {1,2,-1} over sequential and concurrent connections; reconfiguration after accept and in flight (schedule exploration finds lock-order deadlocks); 26 invalid configurations; oracle = reference model of delivered bytes, cut position, minimum virtual delay, count consumption, unchanged shaping after a rejected configuration, bucket threads released.",
+         "The real proxy serves a trafficshape.Listener over simnet under the gosim scheduler with virtual time (bucket spin loops are parked by the engine until a drain tick): close actions at offsets {0,1,n-1,n,n+1,5000,6000}+range start x sizes {0,1,600,4095,4096,4097,10000} x range starts {0,1,4096} x body read chunkings; halts and throttles (single, adjacent, gap, max bandwidth), latency, non-matching URL; counts {1,2,-1} over sequential and concurrent connections; shared finite global bandwidth over sequential and concurrent connections; reconfiguration after accept and in flight (schedule exploration finds lock-order deadlocks); 35 invalid configurations incl. valid defaults with invalid shapes; oracle = reference model of delivered bytes, cut position, minimum virtual delay, count consumption, unchanged shaping after a rejected configuration, bucket threads released.",
          "Virtual time advances only at quiescence (timers due now fire eagerly); Content-Length framing only.",
          "bounded-exhaustive configuration/input enumeration + schedule enumeration (gosim) with virtual time", "gosim", "DESIGN.md §7 C18"),
  "C19": ("model_checking",
